@@ -104,6 +104,19 @@ def model_plan(drv, sched: str, cfg: Dict[str, Any]) -> Dict[str, Any]:
 def unstable(sched: str, cfg: Dict[str, Any], plan: Dict[str, Any], upto: int) -> bool:
     """is the implementation's own output at this input sensitive to a 1e-13 relative perturbation of the real-valued
     parameters (i.e. does some rounding/threshold decision up to bin `upto` sit on a boundary)?"""
+    if sched == "vectorized_ltf":
+        # the walker looks its frequency up in a 10^(log10 ...) grid: a lookup frequency within a few ulp of a grid point is a
+        # rounding boundary of the implementation itself (in exact arithmetic grid[0] = fmin; in floats 10**log10(fmin) lands on
+        # either side, and numpy's and libm's pow need not agree in the last bit) -- seen with Jdes = 1, seed 21
+        try:
+            fmin = cfg["bmin"] * cfg["fs"] / cfg["N"]
+            grid = np.logspace(np.log10(fmin), np.log10(cfg["fs"] / 2), int(10 * cfg["Jdes"]))
+            # only the bin where the outputs first differ can be explained this way (earlier bins agree)
+            fs_ = np.asarray(plan["f"], dtype=float)
+            if upto < len(fs_) and np.min(np.abs(grid - fs_[upto])) <= 1e-13 * abs(fs_[upto]):
+                return True
+        except Exception:
+            return True
     for key in ("fs", "olap", "bmin"):
         for s in (1e-13, -1e-13):
             c2 = dict(cfg)
